@@ -2326,13 +2326,12 @@ static int32_t tls13ParseNewSessionTicket(ssl_t *ssl, psParseBuf_t *pb)
     }
     else
     {
-        ssl->sid = psMalloc(ssl->hsPool, sizeof(sslSessionId_t));
-        if (ssl->sid == NULL)
-        {
-            goto out_internal_error;
-        }
-        Memset(ssl->sid, 0, sizeof(sslSessionId_t));
-        ssl->sid->pool = ssl->hsPool;
+        /* The application did not provide a session ID structure, so
+           there is nowhere to keep the ticket for a later connection.
+           (A structure allocated here would be unreachable for the
+           application and was never freed.) */
+        rc = PS_SUCCESS;
+        goto do_free;
     }
 # ifdef USE_STATELESS_SESSION_TICKETS
     ssl->sid->sessionTicket = psMalloc(ssl->sid->pool, ticketLen);
